@@ -150,6 +150,150 @@ impl Ty {
         }
     }
 
+    /// the implementation's type built through its public constructors (no text involved)
+    pub fn construct(&self) -> Type {
+        use std::sync::Arc;
+        match self {
+            Ty::Bool => Type::Bool,
+            Ty::Int => Type::Int,
+            Ty::Float => Type::Float,
+            Ty::Str => Type::String,
+            Ty::Void => Type::Void,
+            Ty::Any => Type::Any,
+            Ty::Never => Type::Never,
+            Ty::Arr(e) => Type::Array(Arc::new(e.construct())),
+            Ty::Tup(ts) => Type::Tuple(ts.iter().map(Ty::construct).collect()),
+            Ty::Fun(ps, r) => simplesl::variable::FunctionType { params: ps.iter().map(Ty::construct).collect(), return_type: r.construct() }.into(),
+            Ty::Mut(e) => Type::Mut(Arc::new(e.construct())),
+            Ty::Struct(fs) => Type::Struct(simplesl::variable::StructType::from(
+                fs.iter().map(|(k, v)| (Arc::<str>::from(k.as_str()), v.construct())).collect::<std::collections::HashMap<_, _>>(),
+            )),
+            Ty::Union(ms) => ms.iter().map(Ty::construct).reduce(|a, b| a | b).expect("a union has members"),
+        }
+    }
+
+    /// reads the text `print` produces (the harness's own reader, independent of the implementation's)
+    pub fn parse(text: &str) -> Option<Ty> {
+        struct P<'a> {
+            s: &'a [u8],
+            i: usize,
+        }
+        impl P<'_> {
+            fn ws(&mut self) {
+                while self.i < self.s.len() && self.s[self.i] == b' ' {
+                    self.i += 1;
+                }
+            }
+            fn eat(&mut self, t: &str) -> bool {
+                self.ws();
+                if self.s[self.i..].starts_with(t.as_bytes()) {
+                    self.i += t.len();
+                    true
+                } else {
+                    false
+                }
+            }
+            fn word(&mut self) -> String {
+                self.ws();
+                let st = self.i;
+                while self.i < self.s.len() && (self.s[self.i].is_ascii_alphanumeric() || self.s[self.i] == b'_') {
+                    self.i += 1;
+                }
+                String::from_utf8_lossy(&self.s[st..self.i]).to_string()
+            }
+            fn union(&mut self) -> Option<Ty> {
+                let mut ms = vec![self.single()?];
+                while self.eat("|") {
+                    ms.push(self.single()?);
+                }
+                Some(if ms.len() == 1 { ms.pop().unwrap() } else { Ty::union(ms) })
+            }
+            fn single(&mut self) -> Option<Ty> {
+                self.ws();
+                if self.eat("!") {
+                    return Some(Ty::Never);
+                }
+                if self.eat("[") {
+                    if self.eat("]") {
+                        return Some(Ty::arr(Ty::Never));
+                    }
+                    let e = self.union()?;
+                    return self.eat("]").then(|| Ty::arr(e));
+                }
+                if self.eat("(") {
+                    // (), a tuple, a parenthesised union, or the parameter list of a function
+                    let mut items = vec![];
+                    if !self.eat(")") {
+                        loop {
+                            items.push(self.union()?);
+                            if self.eat(",") {
+                                continue;
+                            }
+                            if !self.eat(")") {
+                                return None;
+                            }
+                            break;
+                        }
+                    }
+                    if self.eat("->") {
+                        let r = self.result()?;
+                        return Some(Ty::fun(items, r));
+                    }
+                    return Some(match items.len() {
+                        0 => Ty::Void,
+                        1 => items.pop().unwrap(),
+                        _ => Ty::Tup(items),
+                    });
+                }
+                let save = self.i;
+                let w = self.word();
+                match w.as_str() {
+                    "int" => Some(Ty::Int),
+                    "float" => Some(Ty::Float),
+                    "string" => Some(Ty::Str),
+                    "bool" => Some(Ty::Bool),
+                    "any" => Some(Ty::Any),
+                    "mut" => Some(Ty::cell(self.result()?)),
+                    "struct" => {
+                        if !self.eat("{") {
+                            return None;
+                        }
+                        let mut fs = BTreeMap::new();
+                        if !self.eat("}") {
+                            loop {
+                                let k = self.word();
+                                if k.is_empty() || !self.eat(":") {
+                                    return None;
+                                }
+                                fs.insert(k, self.union()?);
+                                if self.eat(",") {
+                                    continue;
+                                }
+                                if !self.eat("}") {
+                                    return None;
+                                }
+                                break;
+                            }
+                        }
+                        Some(Ty::Struct(fs))
+                    }
+                    _ => {
+                        self.i = save;
+                        None
+                    }
+                }
+            }
+            /// a function result / cell content: one type, a union only in parentheses
+            fn result(&mut self) -> Option<Ty> {
+                self.single()
+            }
+        }
+        let mut p = P { s: text.as_bytes(), i: 0 };
+        let t = p.union()?;
+        p.ws();
+        (p.i == p.s.len()).then_some(t)
+    }
+
     pub fn to_real(&self) -> Type {
         use std::str::FromStr;
         Type::from_str(&self.print()).expect("harness type prints to valid syntax")
